@@ -7,18 +7,27 @@ directory listing order of the family, populated twice into the same map by
 the real ``DirectoryResourcePopulator`` and compared after each population
 with a reference function written from the property statement.
 
-A case is the JSON-able tuple ``(tree, rules, opts, perm)``:
+A case is the JSON-able tuple ``(tree, rules, opts, perm)`` or, in the parts
+added later, ``(tree, rules, opts, perm, tree3)``:
 
 ``tree``   entries below the rule directory ``r``, parents first; directories
            carry a trailing slash: ``('a.x', 'd/', 'd/b.x')``
 ``rules``  1-2 rules ``(directory, extension filter, extras?)`` with directory
            in ``r`` | ``r/d`` (exists iff the tree has ``d/``) | ``m`` (never
            exists) | ``f`` (a plain file next to ``r``)
-``opts``   ``(nest, trim, nest_how, trim_how)``; how = ``ctor`` (value given
-           to the constructor, nothing per call) or ``call`` (constructor
-           gets the *opposite* value, the call overrides it)
+``opts``   ``(nest, trim, nest_how, trim_how[, root_how])``; how = ``ctor``
+           (value given to the constructor, nothing per call) or ``call``
+           (constructor gets the *opposite* value, the call overrides it);
+           root_how (default ``plain``) = how the root directory is spelled
+           and given: ``plain`` | ``slash`` (constructor, trailing separator)
+           | ``call`` | ``call-slash`` (the constructor holds ANOTHER existing
+           directory with foreign files, every call passes ``root=``)
 ``perm``   mixed-radix index choosing the ``os.scandir`` order of every
            directory that a rule scans and that has at least two entries
+``tree3``  (optional) the tree on disk for a THIRD population of the same
+           map: ``tree`` with one file turned into a directory holding a file
+           or one directory (and all below it) turned into a file; without it
+           the case populates twice
 """
 import atexit
 import functools
@@ -45,6 +54,8 @@ LEAF_DIRS = ('e',)                  # always empty
 MAX_DEPTH = 3
 EXT_FILTERS = ((), ('.x',), ('.x', '.y'))
 HOWS = ('ctor', 'call')
+ROOT_HOWS = ('plain', 'slash', 'call', 'call-slash')
+MORPH_CHILD = 'b.x'                 # the file inside a file-turned-directory
 
 RULE = (
     'E3 bounded-exhaustive: EVERY prefix-closed set of at most N entries '
@@ -60,17 +71,39 @@ RULE = (
     'at construction or per call (the constructor then holds the opposite '
     'value; quick: both at construction or both per call, thorough: each '
     'independently); x every os.scandir order of every scanned directory with <= 3 '
-    'entries (sorted and reversed for 4).  Each case populates the same map '
+    'entries (sorted and reversed for 4; quick tier: the listing orders are '
+    'crossed with the options given at construction only, options given '
+    'per call meet the sorted listing - thorough has the full product).  '
+    'Each case populates the same map '
     'twice; the whole oracle runs after the first and after the second '
     'population (so one- and two-population histories are both covered).  '
     'Parts "backlinks" (and "backlinks-pairs" in thorough) re-run tree x '
     'rules x nest x trim of the corresponding mirror part (sorted listing, '
     'options at construction) and check only parent/key of every reachable '
-    'node, shadowed handles included.  A case is distinct by its input '
+    'node, shadowed handles included.  Part "roots": EVERY tree with <= 2 '
+    '(thorough: 3) entries x the 78 core rule sets x nest x trim (at '
+    'construction; thorough: both at construction or both per call) x root '
+    'spelling {root + "/" at construction, root per call (the constructor '
+    'holds another existing directory with foreign files under the same rule '
+    'directories), root + "/" per call}, sorted listing, two populations, '
+    'same oracle (the plain root at construction is every other part).  '
+    'Part "retree": EVERY tree with <= 2 (thorough: 3) entries x EVERY '
+    'single-entry change of it {a file becomes a directory of the same name '
+    'holding the file b.x | a directory with all below it becomes an empty '
+    'file of the same name (except d.x next to a directory d)} x the 78 core '
+    'rule sets x nest x trim (at construction; thorough: both at '
+    'construction or both per call), sorted listing: two populations from '
+    'the tree, then the tree is changed on disk and the same map is '
+    'populated a THIRD time; the oracle runs after each population.  The '
+    'recording factory returns handles that are FALSY (__bool__) for every '
+    'file except those named b.x, in every part.  '
+    'A case is distinct by its input '
     'tuple; non-trivial = it '
     'exercised at least one named shortcut (conflict layering/replacement, '
     'trimmed key, filter rejection, directory with extension, empty '
-    'directory, missing / non-directory rule path, implicit sub-map, ...).')
+    'directory, missing / non-directory rule path, implicit sub-map, falsy '
+    'handle, root spelling, file <-> directory change before a third '
+    'population, ...).')
 
 ASSUMPTIONS = [
     'out of alphabet: dot-files (glob skips them by convention; the '
@@ -92,8 +125,25 @@ ASSUMPTIONS = [
     'when ValueError is due (a rule path is a plain file) only the exception '
     'type and "nothing foreign was added" are checked; whether earlier rules '
     'were already applied is not specified',
-    'nest_on_conflict / trim_extensions have the same value in both '
-    'populations of a case; the populator root is given at construction',
+    'nest_on_conflict / trim_extensions have the same value in all '
+    'populations of a case; so has the root (spelling and way of giving it)',
+    'root spellings: absolute paths only (plain, with one trailing '
+    'separator); relative roots, "." components, symlinks and doubled '
+    'separators are not enumerated',
+    'third population from a changed tree (part "retree"): the tree changes '
+    'on disk under the same root (not through root=); MUST after it: every '
+    'accepted file of the NEW tree is reachable through a handle built in '
+    'that population, on top of ALL older handles of the same key with '
+    'nesting (alone without); every directory of the new tree on the way to '
+    'such a file answers get() with a sub-map (so no handle of an earlier '
+    'population may survive under that key in any layer); the exception '
+    'rule (a rule directory that became a plain file -> ValueError).  MAY: '
+    'whatever an earlier population legitimately added under keys that the '
+    'new tree does not demand (files/directories that disappeared, a '
+    'directory that now holds no accepted file) may stay or go',
+    'handles may be falsy: the recording handle defines __bool__ (False for '
+    'every file not named b.x); presence must never be decided by truth '
+    'value',
     'the populator only reads the file system: files are empty regular files',
     'back-links (part "backlinks", clause "backlinks") overlap C11; they are '
     'checked on the sorted listing order only - run() fails as a harness '
@@ -176,9 +226,32 @@ def rule_sets(family):
     raise HarnessError(f'unknown rule family {family!r}')
 
 
-def option_sets(how='all'):
+def morphs(tree):
+    """Every single-entry change of ``tree`` for a third population: a file
+    becomes a directory of the same name holding MORPH_CHILD, a directory
+    (with all below it) becomes a file of the same name.  Not enumerated: a
+    directory ``d.x`` turning into a file next to a directory ``d`` (file and
+    directory with the same key under trimming: out of alphabet)."""
+    out = []
+    for e in tree:
+        if e.endswith('/'):
+            base = e[:-1].rsplit('/', 1)[-1]
+            if _ext(base) and _parent(e) + _stem(base) + '/' in tree:
+                continue
+            new = [x for x in tree if not x.startswith(e)] + [e[:-1]]
+        else:
+            new = [x for x in tree if x != e] + [e + '/',
+                                                 e + '/' + MORPH_CHILD]
+        out.append(tuple(sorted(new, key=lambda x: (_depth(x), x))))
+    return out
+
+
+def option_sets(how='all', roots=None):
     """how: 'ctor' (backlinks parts) | 'same' (quick: both options at
-    construction or both per call) | 'all' (each independently)."""
+    construction or both per call) | 'all' (each independently).
+    roots: None (old 4-field form = plain root) or the root_how values."""
+    if roots is not None:
+        return [o + (r,) for o in option_sets(how) for r in roots]
     if how == 'ctor':
         hows = [('ctor', 'ctor')]
     elif how == 'same':
@@ -207,7 +280,8 @@ def _rule_status(tree, rule):
     if d == 'r':
         return 'dir'
     if d == 'r/d':
-        return 'dir' if 'd/' in tree else 'missing'
+        return ('dir' if 'd/' in tree else
+                'file' if 'd' in tree else 'missing')
     if d == 'm':
         return 'missing'
     if d == 'f':
@@ -264,7 +338,7 @@ def model(tree, rules, trim):
                     explicit.add(rel)
                 else:
                     filtered_by_some.add(rel)
-                if name == 'd.x':
+                if _ext(name):
                     flags['dir_ext'] = 1
                 if not any(o != e and o.startswith(e) for o in tree):
                     flags['empty_dir'] = 1
@@ -297,10 +371,11 @@ def model(tree, rules, trim):
                                 if s == 'dir'))
 
 
-def expected_groups(mod, pops):
-    """key -> [(pop, rule index, {files}) ...] oldest first."""
+def expected_groups(mods):
+    """mods = the model of every population so far, oldest first.
+    key -> [(pop, rule index, {files}) ...] oldest first."""
     groups = {}
-    for p in range(1, pops + 1):
+    for p, mod in enumerate(mods, 1):
         for ri, acc in enumerate(mod['per_rule']):
             if acc is None:
                 continue
@@ -470,6 +545,22 @@ def _workdir():
     return _WORK['dir']
 
 
+DECOY_FILES = ('r/zz.x', 'r/d/zz.x', 'r/d/zz.y')
+
+
+def _decoy_root():
+    """Another existing root (one per worker, never changed): what the
+    constructor holds when the real root is given per call.  Every rule
+    directory exists there and holds foreign files only."""
+    d = os.path.join(_workdir(), 'decoy')
+    if not os.path.isdir(d):
+        os.makedirs(d + '/r/d')
+        for f in DECOY_FILES:
+            _touch(d + '/' + f)
+        _touch(d + '/f')
+    return d
+
+
 def _touch(path):
     os.close(os.open(path, os.O_CREAT | os.O_EXCL | os.O_WRONLY, 0o600))
 
@@ -508,6 +599,9 @@ def _destroy(root, tree):
 # ---------------------------------------------------------------------------
 # recording factory
 # ---------------------------------------------------------------------------
+TRUTHY_NAME = 'b.x'      # handles of every other file are falsy
+
+
 class RecHandle(desper.Handle):
     """Handle that remembers how the populator built it."""
 
@@ -518,6 +612,11 @@ class RecHandle(desper.Handle):
         self.rule = None
         self.seq = None
         self.file = None
+        self.truthy = False
+
+    def __bool__(self):
+        # a legal object may be falsy: presence is never a truth value
+        return self.truthy
 
     def load(self):
         return ('loaded', self.pop, self.rule, self.seq)
@@ -534,6 +633,8 @@ class Recorder:
             h = RecHandle(*args, **kwargs)
             h.pop, h.rule, h.seq = self.pop, ri, len(self.created)
             h.file = self._file_of(h)
+            h.truthy = (h.file is not None
+                        and h.file.rsplit('/', 1)[-1] == TRUTHY_NAME)
             self.created.append(h)
             return h
         make.__name__ = f'factory{ri}'
@@ -592,17 +693,28 @@ def _features(mod, rules, nest=None, trim=None, **more):
     return f
 
 
-def check_population(m, recorder, mod, rules, nest, trim, pops, raised,
-                     tree, nodes):
-    """Main clauses after ``pops`` populations.  Returns (violation, facts)."""
+def check_population(m, recorder, mods, rules, nest, trim, raised,
+                     tree_seq, nodes):
+    """Main clauses after ``len(mods)`` populations; mods / tree_seq = model
+    and tree of every population so far (the last one is the current).
+    Returns (violation, facts)."""
     facts = {}
+    pops = len(mods)
+    mod = mods[-1]
+    tree = tree_seq[-1]
+    changed = any(t != tree for t in tree_seq)
+    if any(o['raises'] for o in mods[:-1]) and not mod['raises']:
+        raise HarnessError('a rule path that was a plain file is none any '
+                           'more: not in the family')
     # -- exception behaviour ------------------------------------------------
     if mod['raises']:
         name = type(raised).__name__ if raised is not None else 'nothing'
+        plain = [r[0] for r, st in zip(rules, mod['status']) if st == 'file']
         if not isinstance(raised, ValueError):
             return Violation(
                 'not_a_directory_valueerror',
-                f'rule path f exists and is a plain file: expected '
+                f'population {pops}: rule path {plain} exists and is a '
+                f'plain file: expected '
                 f'ValueError, got {name}'
                 + (f' ({raised})' if raised is not None else ''),
                 raised=name), facts
@@ -616,7 +728,7 @@ def check_population(m, recorder, mod, rules, nest, trim, pops, raised,
     if 'missing' in mod['status']:
         facts['rule_missing'] = 1
 
-    groups = expected_groups(mod, pops)
+    groups = expected_groups(mods)
     stacks = {}
     for kind, path, node, cont, layer in nodes:
         if kind == 'handle':
@@ -625,11 +737,23 @@ def check_population(m, recorder, mod, rules, nest, trim, pops, raised,
     def label(h):
         return (h.pop, h.rule, recorder.file_of(h))
 
+    was_dir = set()
+    if changed:
+        was_dir = {'r/' + e[:-1] for t in tree_seq[:-1] for e in t
+                   if e.endswith('/')}
     if not mod['raises']:
         # -- every accepted file is reachable, newest first ------------------
         for key in sorted(groups):
             gs = groups[key]
             newest = gs[-1]
+            if newest[0] != pops:
+                # only in an earlier population from another tree: the file
+                # is gone (or is a directory now) - nothing is demanded
+                if not changed:
+                    raise HarnessError(f'model: key {key!r} vanished from '
+                                       f'an unchanged tree')
+                facts['key_of_vanished_file'] = 1
+                continue
             got = m.get(key)
             want = sorted(newest[2])
             if not isinstance(got, RecHandle):
@@ -676,6 +800,9 @@ def check_population(m, recorder, mod, rules, nest, trim, pops, raised,
                     'file_reachable',
                     f'map[{key!r}] is not the value loaded by the handle',
                     **_features(mod, rules, trim=trim, got='getitem')), facts
+            facts['truthy_handle' if got else 'falsy_handle'] = 1
+            if changed and key in was_dir:
+                facts['third_population_directory_became_file'] = 1
             # -- factory arguments ------------------------------------------
             for h in stack:
                 if not isinstance(h, RecHandle):
@@ -699,9 +826,11 @@ def check_population(m, recorder, mod, rules, nest, trim, pops, raised,
                     facts['extra_arguments'] = 1
             # -- conflicts --------------------------------------------------
             if len(all_labels) > 1:
-                source = ('second_population' if gs[0][0] != gs[-1][0]
+                source = ('later_population' if gs[0][0] != gs[-1][0]
                           else 'overlapping_rules' if len(gs) > 1
                           else 'same_listing')
+                if source == 'later_population' and pops == 2:
+                    source = 'second_population'
                 obs = sorted(map(repr, (label(h) for h in stack
                                         if isinstance(h, RecHandle))))
                 if nest:
@@ -725,6 +854,8 @@ def check_population(m, recorder, mod, rules, nest, trim, pops, raised,
                     facts['replace_without_nest'] = 1
                 if gs[0][0] != gs[-1][0]:
                     facts['second_population'] = 1
+                    if pops == 3 and gs[0][0] == 1:
+                        facts['third_population_same_key'] = 1
                 if any(a[0] == b[0] for a, b in zip(gs, gs[1:])):
                     facts['overlapping_rules'] = 1
                 if any(len(fs) > 1 for _, _, fs in gs):
@@ -732,20 +863,43 @@ def check_population(m, recorder, mod, rules, nest, trim, pops, raised,
         # -- directories on the way are sub-maps ----------------------------
         for d in sorted(mod['required']):
             got = m.get(d)
+            was_file = changed and d in groups
             if not isinstance(got, desper.ResourceMap):
+                more = {}
+                detail = ''
+                if was_file:
+                    more['was_file'] = True
+                    if isinstance(got, RecHandle):
+                        detail = (f' - the handle built in population '
+                                  f'{got.pop} from {recorder.file_of(got)!r}'
+                                  f', found in {len(stacks.get(d, ()))} '
+                                  f'layer(s)')
                 return Violation(
                     'directory_is_submap',
-                    f'directory {d!r} leads to an accepted file but get() '
-                    f'returned {type(got).__name__}',
+                    f'population {pops}: directory {d!r} leads to an '
+                    f'accepted file but get() returned '
+                    f'{type(got).__name__}{detail}',
                     **_features(
                         mod, rules,
-                        listed=d not in mod['implicit_required'])), facts
+                        listed=d not in mod['implicit_required'],
+                        **more)), facts
+            if was_file:
+                # (get() looks into every handle layer first: a sub-map
+                # here means no layer holds the name any more)
+                facts['third_population_file_became_directory'] = 1
+                if nest and len(groups[d]) > 1:
+                    facts['file_became_directory_under_layers'] = 1
         if mod['implicit_required']:
             facts['implicit_submap'] = 1
 
     # -- nothing else ------------------------------------------------------
-    tree_files = {'r/' + e for e in tree if not e.endswith('/')}
-    tree_dirs = {'r/' + e[:-1] for e in tree if e.endswith('/')} | {'r'}
+    tree_files = {'r/' + e for t in set(tree_seq) for e in t
+                  if not e.endswith('/')}
+    tree_dirs = {'r/' + e[:-1] for t in set(tree_seq) for e in t
+                 if e.endswith('/')} | {'r'}
+    allowed = mod['allowed']
+    if changed:
+        allowed = frozenset().union(*(o['allowed'] for o in mods))
     for kind, path, node, cont, layer in nodes:
         key = _keystr(path)
         bad = None
@@ -754,7 +908,7 @@ def check_population(m, recorder, mod, rules, nest, trim, pops, raised,
         elif kind == 'map':
             if not isinstance(node, desper.ResourceMap):
                 bad = 'not_a_map'
-            elif key not in mod['allowed']:
+            elif key not in allowed:
                 bad = ('map_for_file' if key in tree_files or key == 'f'
                        else 'map_outside_rule_dir' if key in tree_dirs
                        else 'map_for_nothing')
@@ -828,10 +982,18 @@ def check_backlinks(nodes, mod):
 # one case
 # ---------------------------------------------------------------------------
 def _norm_case(case):
-    tree, rules, opts, perm = kernel.totuple(case)
+    """Old form (tree, rules, (nest, trim, nest_how, trim_how), perm) and new
+    form (tree, rules, opts + (root_how,), perm, tree3) -> the new form."""
+    case = kernel.totuple(case)
+    tree, rules, opts, perm = case[:4]
+    tree3 = case[4] if len(case) > 4 else None
     rules = tuple((r[0], tuple(r[1]), int(r[2])) for r in rules)
-    opts = (int(opts[0]), int(opts[1]), str(opts[2]), str(opts[3]))
-    return tuple(tree), rules, opts, int(perm)
+    root_how = str(opts[4]) if len(opts) > 4 else 'plain'
+    if root_how not in ROOT_HOWS:
+        raise HarnessError(f'unknown root spelling {root_how!r}')
+    opts = (int(opts[0]), int(opts[1]), str(opts[2]), str(opts[3]), root_how)
+    return (tuple(tree), rules, opts, int(perm),
+            None if tree3 is None else tuple(tree3))
 
 
 def execute(case):
@@ -840,14 +1002,17 @@ def execute(case):
     Returns (main violation or None, backlinks violation or None, hits,
     number of populate calls checked).
     """
-    tree, rules, opts, perm = _norm_case(case)
-    nest, trim, nest_how, trim_how = opts
+    tree, rules, opts, perm, tree3 = _norm_case(case)
+    nest, trim, nest_how, trim_how, root_how = opts
     root = os.path.join(_workdir(), 'case')
+    tree_seq = [tree, tree] + ([tree3] if tree3 is not None else [])
     mod = model(tree, rules, trim)
+    mod_seq = [model(t, rules, trim) for t in tree_seq]
     plan, permuted = listing_plan(tree, rules, perm, root)
     hits = {}
     main_v = back_v = None
     calls = 0
+    on_disk = tree
     _build(root, tree)
     try:
         ctor = dict(nest_on_conflict=bool(nest) if nest_how == 'ctor'
@@ -859,15 +1024,28 @@ def execute(case):
             call_kw['nest_on_conflict'] = bool(nest)
         if trim_how == 'call':
             call_kw['trim_extensions'] = bool(trim)
+        spelled = root + os.sep if root_how.endswith('slash') else root
+        if root_how.startswith('call'):
+            ctor_root = _decoy_root()
+            call_kw['root'] = spelled
+        else:
+            ctor_root = spelled
         recorder = Recorder(root)
-        populator = desper.DirectoryResourcePopulator(root, **ctor)
+        populator = desper.DirectoryResourcePopulator(ctor_root, **ctor)
         for ri, (rdir, exts, extra) in enumerate(rules):
             args, kwargs = extras_of(ri, extra)
             populator.add_rule(rdir, recorder.factory(ri), *args,
                                file_exts=list(exts), **kwargs)
         m = desper.ResourceMap()
         backlink_nodes = 0
-        for pops in (1, 2):
+        for pops in range(1, len(tree_seq) + 1):
+            now = tree_seq[pops - 1]
+            if now != on_disk:
+                # the tree changes on disk between two populations
+                _destroy(root, on_disk)
+                on_disk = now
+                _build(root, now)
+                plan, _ = listing_plan(now, rules, 0, root)
             recorder.pop = pops
             raised = None
             scan = OrderedScandir(plan)
@@ -880,20 +1058,24 @@ def execute(case):
                 raised = exc
             if scan.error:
                 raise HarnessError(scan.error)
-            if mod['rule_dirs'] and not scan.calls and raised is None:
+            if mod_seq[pops - 1]['rule_dirs'] and not scan.calls \
+                    and raised is None:
                 raise HarnessError(
                     'the populator listed a directory without going '
                     'through os.scandir: listing order is not owned')
             calls += 1
             nodes = _walk(m)
-            v, facts = check_population(m, recorder, mod, rules, nest, trim,
-                                        pops, raised, tree, nodes)
+            v, facts = check_population(m, recorder, mod_seq[:pops], rules,
+                                        nest, trim, raised,
+                                        tree_seq[:pops], nodes)
             for k in facts:
                 hits[k] = 1
-            b, n, nbad = check_backlinks(nodes, mod)
+            b, n, nbad = check_backlinks(nodes, mod_seq[pops - 1])
             backlink_nodes += n
             if b is not None and back_v is None:
                 back_v = b
+                if pops == 3:
+                    back_v.features['after_tree_change'] = True
             if v is not None:
                 main_v = v
                 break
@@ -914,6 +1096,13 @@ def execute(case):
                     hits['nested_rule_dir'] = 1
                 if permuted:
                     hits['listing_permuted'] = 1
+                if root_how.endswith('slash'):
+                    hits['root_with_trailing_separator'] = 1
+                if root_how.startswith('call'):
+                    hits['root_per_call_overrides_ctor'] = 1
+            if tree3 is not None and mod_seq[-1]['raises'] \
+                    and not mod['raises']:
+                hits['rule_dir_became_file'] = 1
             if 'call' in (nest_how, trim_how):
                 hits['option_per_call_overrides_ctor'] = 1
             hits['backlink_nodes_seen'] = backlink_nodes
@@ -921,7 +1110,7 @@ def execute(case):
                 hits['backlink_defect_observed'] = 1
     finally:
         os.scandir = _REAL_SCANDIR
-        _destroy(root, tree)
+        _destroy(root, on_disk)
     return main_v, back_v, hits, calls
 
 
@@ -952,7 +1141,20 @@ def run_backlinks(case):
     return {'calls': calls, 'hits': out, 'key': _case_key(case)}
 
 
-RUNNERS = {'mirror': run_mirror, 'backlinks': run_backlinks}
+def run_full(case):
+    """Parts without a backlinks twin (roots, retree): the main clauses
+    first, then the back-links of the same run."""
+    main_v, back_v, hits, calls = execute(case)
+    if main_v is not None:
+        raise main_v
+    if back_v is not None:
+        raise back_v
+    hits.pop('backlink_nodes_seen', None)
+    return {'calls': calls, 'hits': hits, 'key': _case_key(case)}
+
+
+RUNNERS = {'mirror': run_mirror, 'backlinks': run_backlinks,
+           'full': run_full}
 
 
 # ---------------------------------------------------------------------------
@@ -960,35 +1162,68 @@ RUNNERS = {'mirror': run_mirror, 'backlinks': run_backlinks}
 # ---------------------------------------------------------------------------
 def parts(tier):
     """part name -> (runner kind, max entries per tree, rule family, how
-    the options are given)."""
+    the options are given[, extra dimension: 'roots' | 'retree'])."""
     if tier == 'quick':
         return {'mirror': ('mirror', 3, 'core', 'same'),
-                'backlinks': ('backlinks', 3, 'core', 'ctor')}
+                'backlinks': ('backlinks', 3, 'core', 'ctor'),
+                'roots': ('full', 2, 'core', 'ctor', 'roots'),
+                'retree': ('full', 2, 'core', 'ctor', 'retree')}
     return {'mirror': ('mirror', 4, 'core', 'all'),
             'mirror-pairs': ('mirror', 3, 'other-pairs', 'all'),
             'backlinks': ('backlinks', 4, 'core', 'ctor'),
-            'backlinks-pairs': ('backlinks', 3, 'other-pairs', 'ctor')}
+            'backlinks-pairs': ('backlinks', 3, 'other-pairs', 'ctor'),
+            'roots': ('full', 3, 'core', 'same', 'roots'),
+            'retree': ('full', 3, 'core', 'same', 'retree')}
+
+
+def _spec(spec):
+    return tuple(spec) + (None,) * (5 - len(spec))
 
 
 def part_params(spec):
-    kind, n, family, how = spec
-    return dict(checks=kind, max_entries=n, rule_family=family,
-                trees=len(trees(n)), rule_sets=len(rule_sets(family)),
-                options_given=how, option_sets=len(option_sets(how)),
-                listing_orders=('sorted only' if kind == 'backlinks' else
-                                'all for <= 3 entries, both extremes for 4'))
+    kind, n, family, how, extra = _spec(spec)
+    out = dict(checks=kind, max_entries=n, rule_family=family,
+               trees=len(trees(n)), rule_sets=len(rule_sets(family)),
+               options_given=how, option_sets=len(option_sets(how)),
+               listing_orders=('sorted only' if kind == 'backlinks' or extra
+                               else
+                               'all for <= 3 entries, both extremes for 4'
+                               + ('; options per call: sorted only'
+                                  if how == 'same' else '')),
+               populations=3 if extra == 'retree' else 2)
+    if extra == 'roots':
+        out['root_spellings'] = list(ROOT_HOWS[1:])
+    if extra == 'retree':
+        ms = [len(morphs(t)) for t in trees(n)]
+        out['tree_changes'] = sum(ms)
+    return out
 
 
 def cases_for(spec):
-    kind, n, family, how = spec
+    kind, n, family, how, extra = _spec(spec)
     rsets = rule_sets(family)
+    if extra == 'roots':
+        osets = option_sets(how, ROOT_HOWS[1:])
+        return [(tree, rules, opts, 0, None) for tree in trees(n)
+                for rules in rsets for opts in osets]
+    if extra == 'retree':
+        osets = option_sets(how, ('plain',))
+        return [(tree, rules, opts, 0, tree3) for tree in trees(n)
+                for tree3 in morphs(tree)
+                for rules in rsets for opts in osets]
     osets = option_sets(how)
     out = []
     for tree in trees(n):
         for rules in rsets:
             np = 1 if kind == 'backlinks' else perm_count(tree, rules)
             for opts in osets:
-                for perm in range(np):
+                perms = range(np)
+                if how == 'same' and opts[2] == 'call':
+                    # quick tier: options given per call meet the sorted
+                    # listing only (traded for the parts "roots" and
+                    # "retree"; thorough has the full product)
+                    perms = (0,)
+                for perm in perms:
                     out.append((tree, rules, opts, perm))
     return out
 
@@ -1028,14 +1263,20 @@ def calibrate():
     # determinism self-check: one rich case, twice, same outcome
     probe = (('a.x', 'a.y', 'd/', 'd/b.x'),
              (('r', (), 0), ('r/d', ('.x',), 1)), (1, 1, 'ctor', 'call'), 3)
-    outs = []
-    for _ in range(2):
-        mv, bv, hits, calls = execute(probe)
-        outs.append((None if mv is None else mv.signature(),
-                     None if bv is None else bv.signature(),
-                     sorted(hits.items()), calls))
-    if outs[0] != outs[1]:
-        raise HarnessError(f'case execution is not deterministic: {outs}')
+    probe3 = (('a.x', 'c', 'd/', 'd/b.x'),
+              (('r', (), 0), ('r/d', ('.x',), 1)),
+              (1, 0, 'ctor', 'ctor', 'call-slash'), 0,
+              ('a.x', 'c/', 'd/', 'c/b.x', 'd/b.x'))
+    for case in (probe, probe3):
+        outs = []
+        for _ in range(2):
+            mv, bv, hits, calls = execute(case)
+            outs.append((None if mv is None else mv.signature(),
+                         None if bv is None else bv.signature(),
+                         sorted(hits.items()), calls))
+        if outs[0] != outs[1]:
+            raise HarnessError(
+                f'case execution is not deterministic: {outs}')
 
 
 REQUIRED = dict(nested_conflict_layered=1, replace_without_nest=1,
@@ -1044,11 +1285,19 @@ REQUIRED = dict(nested_conflict_layered=1, replace_without_nest=1,
                 rule_missing=1, nested_rule_dir=1, extra_arguments=1,
                 listing_permuted=1, outside_rule_dir_ignored=1,
                 same_key_winner_free=1, option_per_call_overrides_ctor=1,
-                nothing_accepted=1, implicit_submap=1, backlinks_verified=1)
+                nothing_accepted=1, implicit_submap=1, backlinks_verified=1,
+                falsy_handle=1, truthy_handle=1,
+                root_with_trailing_separator=1,
+                root_per_call_overrides_ctor=1,
+                third_population_file_became_directory=1,
+                file_became_directory_under_layers=1,
+                third_population_directory_became_file=1,
+                third_population_same_key=1, key_of_vanished_file=1)
 # shortcuts that can only be counted on cases that pass; when the clause
 # itself is violated on every such case the violation is the evidence
 REQUIRED_UNLESS_VIOLATED = dict(
     rule_path_is_file='not_a_directory_valueerror',
+    rule_dir_became_file='not_a_directory_valueerror',
     implicit_submap_backlinked='backlinks')
 
 
